@@ -27,13 +27,14 @@ ASSUMPTIONS = ["removals are enabled only for contained objects; replace_lanelet
 IDS = {"L1": [1], "L2": [2], "L3": [3], "S": [10], "T": [11], "I": [20, 21], "O1": [30], "O2": [31], "O3": [32], "O4": [33],
        "X": [1], "Y": [30], "J": [40, 2], "S2": [10],
        "Z": [32], "D": [10], "P": [11], "E": [20], "M": [33],
-       "K": [40, 41, 40], "S3": [3], "I2": [22, 21]}       # an intersection one of whose incomings carries the intersection's own id: never addable, and it must not leave ids behind
+       "K": [40, 41, 40], "S3": [3], "I2": [22, 21],
+       "N": [50]}                                          # an intersection without incoming elements or crossings       # an intersection one of whose incomings carries the intersection's own id: never addable, and it must not leave ids behind
 KIND = {"L1": "lanelet", "L2": "lanelet", "L3": "lanelet", "S": "sign", "T": "light", "I": "intersection", "O1": "static",
         "O2": "dynamic", "O3": "environment", "O4": "phantom", "X": "static", "Y": "sign", "J": "intersection", "S2": "sign",
-        "Z": "light", "D": "dynamic", "P": "phantom", "E": "environment", "M": "lanelet", "K": "intersection", "S3": "sign", "I2": "intersection"}
+        "Z": "light", "D": "dynamic", "P": "phantom", "E": "environment", "M": "lanelet", "K": "intersection", "S3": "sign", "I2": "intersection", "N": "intersection"}
 REFS = {"L2": {"sign": {10}, "light": {11}}}
 OBST = ["O1", "O2", "O3", "O4", "X", "D", "P", "E"]
-SINGLES = ["L1", "L2", "S", "T", "I", "O1", "O2", "O3", "O4", "X", "Y", "J", "Z", "D", "P", "E", "M", "K"]
+SINGLES = ["L1", "L2", "S", "T", "I", "O1", "O2", "O3", "O4", "X", "Y", "J", "Z", "D", "P", "E", "M", "K", "N"]
 NETS = {"NA": ["L1", "L2", "S", "T", "I"], "NB": ["L3", "S2"],
         "NC": ["L3", "S3"],        # a network two of whose own members (of different kinds) carry the same id: never addable
         "ND": ["T", "Y"],          # a network WITHOUT lanelets (a light and a sign whose id an obstacle may use): checked like any other network
@@ -83,6 +84,8 @@ def make(name):
         return Intersection(22, [IntersectionIncomingElement(21, {2}, set(), {1}, set())])
     if name == "J":
         return Intersection(40, [IntersectionIncomingElement(2, {1}, set(), set(), set())])
+    if name == "N":
+        return Intersection(50, [])
     if name == "S3":
         return TrafficSign(3, [TrafficSignElement(TrafficSignIDGermany.STOP, [])], set(), np.array([2.0, 2.0]))
     if name == "K":
@@ -121,6 +124,40 @@ def make(name):
                 net.add_intersection(o)
         return net
     raise KeyError(name)
+
+
+GENKINDS = ["sign", "light", "lanelet", "intersection", "static", "dynamic", "environment", "phantom"]
+
+
+def make_generated(kind, g):
+    """an object of the given kind whose id is g (an id handed out by generate_object_id), away from everything else"""
+    import numpy as np
+    from commonroad.geometry.shape import Circle
+    from commonroad.scenario.lanelet import Lanelet
+    from commonroad.scenario.intersection import Intersection
+    from commonroad.scenario.obstacle import StaticObstacle, DynamicObstacle, EnvironmentObstacle, PhantomObstacle, ObstacleType
+    from commonroad.scenario.state import InitialState
+    from commonroad.prediction.prediction import SetBasedPrediction, Occupancy
+    from commonroad.scenario.traffic_sign import TrafficSign, TrafficSignElement, TrafficSignIDGermany
+    from commonroad.scenario.traffic_light import TrafficLight, TrafficLightCycle, TrafficLightCycleElement, TrafficLightState
+    st = InitialState(time_step=0, position=np.array([5.0, 80.0]), orientation=0.0, velocity=0.0, acceleration=0.0, yaw_rate=0.0, slip_angle=0.0)
+    if kind == "sign":
+        return TrafficSign(g, [TrafficSignElement(TrafficSignIDGermany.STOP, [])], set(), np.array([3.0, 82.0]))
+    if kind == "light":
+        return TrafficLight(g, np.array([1.0, 82.0]), TrafficLightCycle([TrafficLightCycleElement(TrafficLightState.GREEN, 1)]))
+    if kind == "lanelet":
+        return Lanelet(np.array([[0.0, 81.0], [10.0, 81.0]]), np.array([[0.0, 80.0], [10.0, 80.0]]), np.array([[0.0, 79.0], [10.0, 79.0]]), g)
+    if kind == "intersection":
+        return Intersection(g, [])
+    if kind == "static":
+        return StaticObstacle(g, ObstacleType.PARKED_VEHICLE, Circle(1.0), st)
+    if kind == "dynamic":
+        return DynamicObstacle(g, ObstacleType.CAR, Circle(1.0), st)
+    if kind == "environment":
+        return EnvironmentObstacle(g, ObstacleType.BUILDING, Circle(2.0, np.array([0.0, 90.0])))
+    if kind == "phantom":
+        return PhantomObstacle(g, SetBasedPrediction(0, [Occupancy(0, Circle(1.0, np.array([5.0, 80.0])))]))
+    raise KeyError(kind)
 
 
 def new_scenario():
@@ -207,6 +244,10 @@ def enabled(model):
     ops.append(["erase"])
     if ngen < 2:
         ops.append(["generate"])
+        # an object that carries a *generated* id is added and removed again (the usual way of using generate_object_id): the scenario is as
+        # before, and the id stays "returned before" - a later generate must not hand it out again, whichever kind of object carried it
+        for kind in GENKINDS:
+            ops.append(["gencycle", kind])
     return ops
 
 
@@ -259,7 +300,7 @@ def model_step(model, op):
         if k == "replace":
             p.update(NETS[op[1]])
         return "ok", (frozenset(p), ngen, gen)
-    if k == "generate":
+    if k in ("generate", "gencycle"):
         return "ok", (present, ngen + 1, gen)
     if k == "rm_absent":
         return None, model
@@ -306,6 +347,13 @@ def apply_real(sc, op):
         return sc.erase_lanelet_network()
     if k == "generate":
         return sc.generate_object_id()
+    if k == "gencycle":
+        g = sc.generate_object_id()
+        sc.add_objects(make_generated(op[1], g))
+        rm = {"sign": sc.remove_traffic_sign, "light": sc.remove_traffic_light, "intersection": sc.remove_intersection,
+              "lanelet": sc.remove_lanelet}.get(op[1], sc.remove_obstacle)
+        rm(make_generated(op[1], g))
+        return g
     raise KeyError(k)
 
 
@@ -318,7 +366,7 @@ def step(live, model, op):
         obs = ("ValueError", str(e))
     except Exception as e:
         obs = ("raises:" + type(e).__name__, str(e)[:200])
-    if op[0] == "generate" and obs[0] == "ok":
+    if op[0] in ("generate", "gencycle") and obs[0] == "ok":
         present, ngen, gen = model2
         model2 = (present, ngen, gen + (obs[1],))
     return obs, model2
@@ -356,7 +404,7 @@ def model_ids(present):
     for n in present:
         k = KIND[n]
         if k == "intersection":
-            out.append(("intersection", IDS[n][0])); out.append(("incoming", IDS[n][1]))
+            out.append(("intersection", IDS[n][0])); out.extend(("incoming", i) for i in IDS[n][1:])
         else:
             out.append((k, IDS[n][0]))
     return sorted(out)
@@ -377,9 +425,11 @@ def check(live, model, model2, op, obs, pre):
     dup = sorted({i for i in idvals if idvals.count(i) > 1})
     if dup:
         out.append((f"C09|{opname}|duplicate-id", f"ids {dup} shared by contained objects {got_ids}"))
-    if k == "generate":
+    if k == "gencycle" and obs[0] == "ok" and got_ids != model_ids(model2[0]):
+        out.append((f"C09|add+remove-with-generated-id:{op[1]}|contained-objects-differ-from-model", f"{op}: contained {got_ids} model {model_ids(model2[0])}"))
+    if k in ("generate", "gencycle"):
         if obs[0] != "ok":
-            out.append((f"C09|generate|{obs[0]}", obs[1]))
+            out.append((f"C09|{k}|{obs[0]}", obs[1]))
         else:
             g = obs[1]
             if g in idvals:
